@@ -20,8 +20,8 @@ ASSUMPTIONS = [
     "Linear steps are only used on clouds SciPy can triangulate; queries lie inside the data's lattice frame",
 ]
 
-SCALAR_STEPS = ["trend", "spline", "knn", "linear", "blockreduce", "blockmean", "chain"]
-VECTOR_STEPS = ["vector", "vectorspline", "blockreduce", "blockmean", "chain_vector"]
+SCALAR_STEPS = ["trend", "spline", "knn", "linear", "blockreduce", "blockmean", "chain", "chain_block"]
+VECTOR_STEPS = ["vector", "vectorspline", "blockreduce", "blockmean", "chain_vector", "chain_block_vector"]
 
 
 @st.composite
@@ -41,6 +41,13 @@ def step_spec(draw, kind, scale, allow_blocks=True):
         return dict(kind="blockmean", spacing=scale * draw(st.sampled_from([1.5, 2.0, 3.0])), center=draw(st.booleans()))
     if kind == "chain":
         return dict(kind="chain", steps=[dict(kind="trend", degree=draw(st.integers(0, 1))), dict(kind="spline", damping=draw(st.sampled_from([1e-2, 1.0])))])
+    if kind == "chain_block":
+        # a nested chain that contains a block reduction: the outer chain must still pass on residuals at the original points
+        return dict(kind="chain", steps=[dict(kind=draw(st.sampled_from(["blockreduce", "blockmean"])), spacing=scale * draw(st.sampled_from([1.5, 2.0, 3.0]))),
+                                         dict(kind="trend", degree=draw(st.integers(0, 1)))])
+    if kind == "chain_block_vector":
+        return dict(kind="chain", steps=[dict(kind="blockmean", spacing=scale * draw(st.sampled_from([1.5, 2.0, 3.0]))),
+                                         dict(kind="vector", components=[dict(kind="trend", degree=1), dict(kind="trend", degree=0)])])
     if kind == "vector":
         return dict(kind="vector", components=[draw(step_spec(draw(st.sampled_from(["trend", "spline", "knn"])), scale)) for _ in range(2)])
     if kind == "vectorspline":
@@ -63,6 +70,7 @@ def chain_cases(draw):
     wmode = draw(st.sampled_from(["none", "none", "given"]))
     if wmode == "given":
         kinds = [k if k != "blockreduce" else "blockmean" for k in kinds]
+        kinds = [k if k != "chain_block" else "chain" for k in kinds]
     # BlockMean always outputs weights; a later BlockReduce(np.mean/np.median) could not take them
     seen_bm = False
     for i, k in enumerate(kinds):
@@ -74,6 +82,26 @@ def chain_cases(draw):
         kinds.append("trend" if ncomp == 1 else "vector")
     steps = [draw(step_spec(k, cloud["scale"])) for k in kinds]
     # after a block reduction the number of points is not known to the generator: k must not exceed it
+    def no_blockreduce(sp):
+        if sp["kind"] == "blockreduce":
+            sp["kind"] = "blockmean"
+            sp.pop("reduction", None)
+        for sub in sp.get("steps", []) + sp.get("components", []):
+            no_blockreduce(sub)
+
+    # weights flow from the input or from any BlockMean: later BlockReduce(np.mean/np.median) steps could not take them
+    flowing = wmode == "given"
+    for sp in steps:
+        if flowing:
+            no_blockreduce(sp)
+        if sp["kind"] == "chain":
+            inner_flow = flowing
+            for sub in sp["steps"]:
+                if inner_flow:
+                    no_blockreduce(sub)
+                inner_flow = inner_flow or has_kind(sub, ("blockmean",))
+        flowing = flowing or has_kind(sp, ("blockmean",))
+
     def cap_k(sp):
         if sp["kind"] == "knn":
             sp["k"] = 1
@@ -92,7 +120,7 @@ def chain_cases(draw):
     m = draw(st.integers(1, 8))
     query = [[draw(gen.finite(0, cloud["side"])), draw(gen.finite(0, cloud["side"]))] for _ in range(m)]
     return dict(ncomp=ncomp, cloud=cloud, cloud_b=cloud_b, steps=steps, data=data, data_b=data_b, weights=weights, query=query,
-                shape=draw(st.sampled_from(blocks.shape_options(n))))
+                shape=draw(st.sampled_from(blocks.shape_options(n))), orders=draw(build.orders_strategy()))
 
 
 def has_kind(spec, kinds):
@@ -142,9 +170,10 @@ def fitted_state(est):
 def check_chain(case, ctx):
     shape = case["shape"]
     es, ns = gen.cloud_xy(case["cloud"])
-    e, n = np.array(es).reshape(shape), np.array(ns).reshape(shape)
-    data = [np.array(d).reshape(shape) for d in case["data"]]
-    weights = None if case["weights"] is None else [np.array(w).reshape(shape) for w in case["weights"]]
+    lay = build.Lay(case.get("orders"))
+    e, n = lay(es, shape), lay(ns, shape)
+    data = [lay(d, shape) for d in case["data"]]
+    weights = None if case["weights"] is None else [lay(w, shape) for w in case["weights"]]
     qe, qn = (np.array(v) for v in gen.cloud_query(case["cloud"], case["query"]))
     spec = dict(kind="chain", steps=case["steps"])
     if has_kind(spec, ("linear",)):
@@ -197,6 +226,21 @@ def check_chain(case, ctx):
             for k, w in enumerate(as_tuple(inter[-1][2])):
                 ctx.check(w is not None and close(np.ravel(w), np.ravel(weights[k])), "weights changed along a chain without block reductions")
     ctx.check(np.allclose(chain.region_, (e.min(), e.max(), n.min(), n.max())), "chain region_ is not the bounding box of the data")
+    # the chain's own filter: the coordinates and weights it was given, data minus its prediction, in the data's shape
+    chain_f = build.make_estimator(spec)
+    out = quiet(chain_f.filter, (e, n), d_arg, w_arg)
+    ctx.check(isinstance(out, tuple) and len(out) == 3, "Chain.filter must return (coordinates, residuals, weights)")
+    oc, ores, ow = out
+    ctx.check(len(oc) == 2 and np.array_equal(oc[0], e) and np.array_equal(oc[1], n), "Chain.filter did not return the coordinates it was given (steps %r)", [s["kind"] for s in case["steps"]])
+    if weights is None:
+        ctx.check(ow is None, "Chain.filter invented weights")
+    else:
+        ctx.check(all(np.array_equal(a, b) for a, b in zip(as_tuple(ow), weights)), "Chain.filter did not return the weights it was given")
+    at_data_f = as_tuple(chain_f.predict((e, n)))
+    for k, r in enumerate(as_tuple(ores)):
+        r = np.asarray(r)
+        ctx.check(r.shape == data[k].shape, "Chain.filter residual has shape %s, data has %s", r.shape, data[k].shape)
+        ctx.check(close(r, data[k] - np.asarray(at_data_f[k]).reshape(data[k].shape), 1e-12), "Chain.filter residual (component %d) is not data minus the chain's prediction", k)
     # refit on another dataset = fresh chain (VectorSpline2D keeps its first force locations by documented design: decided in C20)
     if has_kind(spec, ("vectorspline",)):
         kinds = [s["kind"] for s in case["steps"]]
@@ -237,15 +281,16 @@ def vector_cases(draw):
     weights = None if wmode == "none" else [draw(gen.weights_values(n)) for _ in range(ncomp)]
     m = draw(st.integers(1, 6))
     return dict(cloud=cloud, components=comps, data=data, weights=weights, query=[[draw(gen.finite(0, cloud["side"])), draw(gen.finite(0, cloud["side"]))] for _ in range(m)],
-                shape=draw(st.sampled_from(blocks.shape_options(n))))
+                shape=draw(st.sampled_from(blocks.shape_options(n))), orders=draw(build.orders_strategy()))
 
 
 def check_vector(case, ctx):
     shape = case["shape"]
     es, ns = gen.cloud_xy(case["cloud"])
-    e, n = np.array(es).reshape(shape), np.array(ns).reshape(shape)
-    data = tuple(np.array(d).reshape(shape) for d in case["data"])
-    weights = None if case["weights"] is None else tuple(np.array(w).reshape(shape) for w in case["weights"])
+    lay = build.Lay(case.get("orders"))
+    e, n = lay(es, shape), lay(ns, shape)
+    data = tuple(lay(d, shape) for d in case["data"])
+    weights = None if case["weights"] is None else tuple(lay(w, shape) for w in case["weights"])
     qe, qn = (np.array(v) for v in gen.cloud_query(case["cloud"], case["query"]))
     vec = build.make_estimator(dict(kind="vector", components=case["components"]))
     quiet(vec.fit, (e, n), data, weights)
@@ -286,16 +331,17 @@ def filter_cases(draw):
     ncomp = 2 if kind == "vectorspline" else 1
     return dict(cloud=cloud, spec=draw(step_spec(kind, cloud["scale"])), data=[draw(gen.data_values(n, "mixed")) for _ in range(ncomp)],
                 weights=draw(st.one_of(st.none(), st.lists(gen.weights_values(n), min_size=ncomp, max_size=ncomp))),
-                shape=draw(st.sampled_from(blocks.shape_options(n))), extra=draw(st.booleans()))
+                shape=draw(st.sampled_from(blocks.shape_options(n))), extra=draw(st.booleans()), orders=draw(build.orders_strategy()))
 
 
 def check_filter(case, ctx):
     shape = case["shape"]
     es, ns = gen.cloud_xy(case["cloud"])
-    e, n = np.array(es).reshape(shape), np.array(ns).reshape(shape)
-    coords = (e, n) + ((np.arange(e.size, dtype="float64").reshape(shape),) if case["extra"] else ())
-    data = [np.array(d).reshape(shape) for d in case["data"]]
-    weights = None if case["weights"] is None else [np.array(w).reshape(shape) for w in case["weights"]]
+    lay = build.Lay(case.get("orders"))
+    e, n = lay(es, shape), lay(ns, shape)
+    coords = (e, n) + ((lay(np.arange(e.size, dtype="float64"), shape),) if case["extra"] else ())
+    data = [lay(d, shape) for d in case["data"]]
+    weights = None if case["weights"] is None else [lay(w, shape) for w in case["weights"]]
     if case["spec"]["kind"] == "linear":
         from checks.c01 import scipy_accepts
 
